@@ -231,10 +231,15 @@ func init() { ZZHarnesses["ZZC03Or"] = ZZC03Or }
 // admitted iff one of the alternatives admits it - the first or a later one - and each key is
 // judged on its own.
 func ZZC03KeyAlt() {
-	order := v.Choose(0, 1)
-	body := []string{"@ka | @kb", "@kb | @ka"}[order]
+	// the union written in both orders, with a member named twice (directly and through another
+	// name for it), and as two overlapping unions
+	order := v.Choose(0, 5)
+	body := []string{"@ka | @kb", "@kb | @ka", "@ka | @kb | @kalias", "@kalias | @kb | @ka", "@u1 | @u2", "@u2 | @u1"}[order]
 	s := jschema.New("s", "{\n  @kk: 1\n}")
 	v.Assert(s.AddType("@kk", jschema.New("@kk", body)) == nil, "C03/addtype-failed")
+	v.Assert(s.AddType("@kalias", jschema.New("@kalias", "@ka")) == nil, "C03/addtype-failed")
+	v.Assert(s.AddType("@u1", jschema.New("@u1", "@ka | @kb")) == nil, "C03/addtype-failed")
+	v.Assert(s.AddType("@u2", jschema.New("@u2", "@kb | @ka")) == nil, "C03/addtype-failed")
 	v.Assert(s.AddType("@ka", jschema.New("@ka", `"a1" // {regex: "^a"}`)) == nil, "C03/addtype-failed")
 	v.Assert(s.AddType("@kb", jschema.New("@kb", `"b1" // {regex: "^b"}`)) == nil, "C03/addtype-failed")
 	v.Assert(s.Check() == nil, "C03/case-rejected-by-check")
